@@ -253,6 +253,88 @@ def rule_r4(chk, facts):
            'relative branch targets are not computed as address + 2 + displacement')
 
 
+def rule_r6(chk, facts):
+    chk.rule('C15-R6', 'DASL output is written in the syntax the target\'s assembler reads: (a) a %s conversion that receives a '
+             'label from MakeSymbolic(.., "prefix", ..) carries no hexadecimal decoration ("$%s", "%sh"); (b) a '
+             'disassembler module whose own operand formats use Intel hexadecimal ("%sh") sets IntelHexSyntax in its '
+             'switch function, one that uses "$%s" clears it, and das.c prints the ORG address with "$" only under '
+             '!IntelHexSyntax and with a trailing "h" only under IntelHexSyntax', min_instances=12)
+    import re
+    P = facts.program('dasl')
+    n = 0
+    style = {}
+    for un in ('deco68.c', 'deco4004.c', 'deco87c800.c'):
+        u = facts.unit(un)
+        for f in u.funcs.values():
+            if f.file != un:
+                continue
+            for b, i, ln, c in f.calls({'as_snprintf', 'as_snprcatf'}):
+                fmts = [(k, nocast(a)) for k, a in enumerate(c[2]) if nocast(a)[0] == 's']
+                if not fmts:
+                    continue
+                k0, fm = fmts[0]
+                convs = [(m_.start(), m_.end(), m_.group(1)) for m_ in re.finditer(r'%[-+0-9.*l]*([a-zA-Z])', fm[1])]
+                if re.search(r'%sh\b', fm[1]):
+                    style.setdefault(un, set()).add('intel')
+                if '$%s' in fm[1]:
+                    style.setdefault(un, set()).add('motorola')
+                args = c[2][k0 + 1:]
+                for j, a in enumerate(args):
+                    x = nocast(a)
+                    if x[0] == 'call' and callee_name(x) == 'MakeSymbolic' and len(x[2]) > 2 and nocast(x[2][2])[0] == 's' and j < len(convs):
+                        st, en, kind = convs[j]
+                        if ';' in fm[1][:st]:
+                            continue        # inside the comment part of the line
+                        n += 1
+                        before, after = fm[1][st - 1:st] if st else '', fm[1][en:en + 1]
+                        ok = before != '$' and not (after == 'h' and not fm[1][en + 1:en + 2].isalnum())
+                        chk.ob('C15-R6', '%s:%s:label-format@%d' % (un, f.name, ln), ok, f.loc(ln),
+                               'label printed as a name' if ok else
+                               'the label returned by MakeSymbolic() is printed as "%s": the assembler looks for a symbol of '
+                               'that decorated name (or takes it for a malformed number)' % fm[1][max(0, st - 1):en + 1])
+    das = facts.unit('das.c')
+    orgs = []
+    for f in das.funcs.values():
+        if f.file != 'das.c':
+            continue
+        for b, i, ln, c in f.calls('fprintf'):
+            fm = [nocast(a) for a in c[2] if nocast(a)[0] == 's']
+            if fm and fm[0][1].startswith('org'):
+                orgs.append((f, b, i, ln, fm[0][1]))
+    if not orgs:
+        raise AnalysisBroken('das.c: ORG output not found')
+
+    def flag(a, pol):
+        return a[0] == pol and a[1] == ('g', 'IntelHexSyntax')
+    for (f, b, i, ln, fm) in orgs:
+        n += 1
+        if '$' in fm:
+            ok = f.guarded(b, i, lambda l: edge_has_atom(l, lambda a: flag(a, 'z')))[0]
+            why = 'Motorola form only without IntelHexSyntax'
+        elif re.search(r'%sh', fm):
+            ok = f.guarded(b, i, lambda l: edge_has_atom(l, lambda a: flag(a, 'nz')))[0]
+            why = 'Intel form only with IntelHexSyntax'
+        else:
+            ok, why = True, 'neutral form'
+        chk.ob('C15-R6', 'das.c:%s:org-format:%s' % (f.name, fm.strip()), ok, f.loc(ln), why if ok else
+               'the ORG line "%s" is printed regardless of the target\'s hexadecimal syntax: the 4004 and 87C00 assemblers '
+               'reject "$nnnn" (and the 6800 assembler "nnnnh")' % fm.strip())
+    for un, sw in (('deco68.c', 'SwitchTo_68'), ('deco4004.c', 'SwitchTo_4004'), ('deco87c800.c', 'SwitchTo_87C800')):
+        f = facts.func(un, sw)
+        vals = {const_val(m[3]) for b, i, ln, m in f.nodes() if is_assign(m) and strip(m[2]) == ('g', 'IntelHexSyntax')}
+        want = 1 if 'intel' in style.get(un, set()) or un != 'deco68.c' else 0
+        if un == 'deco68.c':
+            want = 0
+        n += 1
+        ok = vals == {want}
+        chk.ob('C15-R6', '%s:%s:IntelHexSyntax' % (un, sw), ok, f.loc(),
+               'sets IntelHexSyntax = %d' % want if ok else
+               '%s() does not set IntelHexSyntax to %d although the module prints %s hexadecimal operands: ORG lines come out in '
+               'the other syntax' % (sw, want, 'Intel' if want else 'Motorola'))
+    if n < 12:
+        raise AnalysisBroken('only %d syntax obligations found for DASL' % n)
+
+
 def run(chk, facts, info):
     rule_6800(chk, facts)
     rule_4004(chk, facts)
@@ -262,6 +344,7 @@ def run(chk, facts, info):
              'the address behind the two-word instruction', min_instances=4)
     from .c14 import page_reference_rule
     page_reference_rule(chk, facts, 'C15-R5')
+    rule_r6(chk, facts)
     chk.note('Decided: opcode-by-opcode agreement of assembler and disassembler tables for 6800/6802 and 4004/4040, '
              'well-formed sign-extension/wrap thresholds, branch target formula. Not decided: the 87C800 disassembler '
              '(code-driven), control-flow tracing, label synthesis, the round trip itself.')
